@@ -5,6 +5,7 @@ import (
 	//"encoding/hex"
 	"io"
 	"log"
+	"net"
 	"net/http"
 	"os"
 	"regexp"
@@ -102,7 +103,7 @@ func (h *HTTP) request(ctx *gin.Context) {
 	if h.Config.BehindRedir {
 		ExternalIP = ctx.Request.Header.Get("X-Forwarded-For")
 	} else {
-		ExternalIP = strings.Split(ctx.Request.RemoteAddr, ":")[0]
+		ExternalIP, _, _ = net.SplitHostPort(ctx.Request.RemoteAddr)
 	}
 
 	/*
